@@ -354,6 +354,10 @@ impl Tr {
                         Some(n) => Ok(self.param(format!("{}_len", sanitize(&n)))),
                         None => err(format!("len on {}", m.receiver.to_token_stream())),
                     },
+                    ("remaining", 0) => match self.place_name(&m.receiver) {
+                        Some(n) => Ok(self.param(format!("{}_remaining", sanitize(&n)))),
+                        None => err(format!("remaining on {}", m.receiver.to_token_stream())),
+                    },
                     ("as_bytes", 0) => {
                         let r = self.expr(&m.receiver)?;
                         self.hint(&r, "List UInt8");
